@@ -143,6 +143,11 @@ HISTORY = {
     "C20-r12-2": "round 12. successive derivatives by position under retain_names=False: caught by C06 (option dimension)",
     "C16-r3G2-2": "round 3. patch rebased onto the later repository fix of to_sympy (display signs); still caught by C16",
     "C02-r7-2": "round 7. first run: missed; the carrier rider now also carries the integers as int16 / uint8 / int8 / uint16 whenever every single power fits that type, and four fixed cases (e.g. q0*q1 at (20, 20)) make sure a product across arguments that does not fit is exercised in every run",
+    "C01-r13-1": "round 13 (second batch). product exponents of 80 and more through the byte-keyed C kernel (UnicodeDecodeError): caught by C20, the property that quantifies over exponent size; C01 draws small exponents",
+    "C04-r13-1": "round 13 (second batch). OPEN: not caught by C04, C12, C09, C01 - align_shape returns zero-size operands unbroadcast; no workload aligns an empty operand with one of another shape. Left for the next session (zero-size shapes in C04's generator; the library's own behaviour on empties has a recorded finding, KF-C12-empty-input, that such a generator must be checked against first)",
+    "C05-r13-1": "round 13 (second batch). first run: missed; new univariate family with one coefficient of +-2**60 next to small integer-valued ones divided by c*q**k (every step exact in binary floating point), checked with an absolute tolerance instead of one relative to the largest coefficient",
+    "C17-r13-1": "round 13 (second batch). two cooperating sites (align_exponents hands back the caller's objects; poly_divmod flushes tiny remainder coefficients in place): caught by C05 (its operands-unchanged comparison after each division), missed by C17's direct pass, which has no dividend whose coefficients are all below 1e-30",
+    "C18-r13-1": "round 13 (second batch). first run: missed; new history cases: the same grid of more than 1000 candidate tuples is requested again in one process under a growing and shrinking cross-truncation norm",
     "C08-r13-1": "round 13 (session 3, hard mode, one change per property). first run: missed; the negative half now first calls every registered function that shares its __name__ with an unregistered one of another numpy module (diagonal / outer / matmul ...), so dispatcher state left by served calls is in place when the namesake must be refused",
     "C06-r13-1": "round 13. first run: missed by C06, C15 and C20; new directed family: indeterminates stored in non-canonical order (q1 before q0), one only in a linear term, differentiated several times in one call, mostly under retain_names=False",
     "C09-r13-1": "round 13. first run: missed; tile now also draws reps made only of ones, longer than the array has dimensions ([1], [1,1], [1,1,1], [1,1,1,1])",
